@@ -136,16 +136,19 @@ def _install_acc_stub(h, cfg, Xc, fit_intercept, captured):
 GROUP_LAYOUTS = {'pair': [[0, 1]], 'rev': [[1], [0]], 'single': [[0], [1]], 'nc3': [[0, 2], [1]]}
 
 
-def mk_group_objects(h, datafit, penalty, layout, positive=False):
+def mk_group_objects(h, datafit, penalty, layout, positive=False, wg_concrete=None):
     Pm, Dm = P(), D()
     grp_ptr = np.cumsum([0] + [len(g) for g in layout]).astype(np.int32)
     grp_idx = np.array([i for g in layout for i in g], dtype=np.int32)
     al = h.real('alpha')
     h.assume(al > 0)
     ng = len(layout)
-    wg = h.vec('wg', ng)
-    for g in range(ng):
-        h.assume(wg[g] >= 0)
+    if wg_concrete is not None:
+        wg = h.const(np.array(wg_concrete, dtype=float)[:ng])
+    else:
+        wg = h.vec('wg', ng)
+        for g in range(ng):
+            h.assume(wg[g] >= 0)
     meta = dict(alpha=al, wg=wg, layout=layout, positive=positive, group=True, name=penalty)
     if penalty == 'WeightedGroupL2':
         pen = h.penalty(Pm.WeightedGroupL2, alpha=al, weights=wg, grp_ptr=grp_ptr, grp_indices=grp_idx,
@@ -241,7 +244,7 @@ def run_driver(h, cfg):
     if group:
         layout = GROUP_LAYOUTS[cfg.get('layout', 'rev')]
         df, pen, meta = mk_group_objects(h, cfg['datafit'], cfg['penalty'].rstrip('+'), layout,
-                                         positive=cfg['penalty'].endswith('+'))
+                                         positive=cfg['penalty'].endswith('+'), wg_concrete=cfg.get('wg_concrete'))
         _, y, dmeta = mk_datafit(h, cfg['datafit'], n, cfg.get('ylabels'))
         dmeta['name'] = cfg['datafit']
     else:
@@ -535,7 +538,67 @@ def violation_terms(h, R, w):
     strategy = R.cfg.get('ws_strategy', 'subdiff')
     terms = []
     if R.meta.get('group'):
-        raise NotImplementedError
+        # WeightedGroupL2, 'subdiff' scores: distance of -grad_g to the subdifferential of  alpha * wg_g * ||.||  at w_g
+        # (oracle side: closed form of the norm's subdifferential; the penalty's own score is tied to it by C08)
+        if R.meta['name'] != 'WeightedGroupL2':
+            raise NotImplementedError
+        from vf.shim import _smax
+        al, wg, lay = R.meta['alpha'], R.meta['wg'], R.meta['layout']
+        if strategy == 'fixpoint':
+            # fixed-point residual of the block prox-gradient map with harness-recomputed block constants
+            # L_g = ||X_g||_2^2 / n (singleton groups: the column's squared norm); the penalty's own prox is tied to its
+            # value by C07.  A zero block (L_g = 0) carries no condition.
+            if any(len(idxs) != 1 for idxs in lay) or R.dmeta['name'] != 'QuadraticGroup':
+                raise NotImplementedError
+            for gi_, idxs in enumerate(lay):
+                j = idxs[0]
+                Lg = float(sum(float(R.Xc[i, j]) ** 2 for i in range(R.n))) / R.n
+                if Lg == 0:
+                    terms.append(0.0)
+                    continue
+                st = 1.0 / Lg
+                wv = h.arr([w[j]]) if h.mode == 'sym' else np.array([float(w[j])])
+                pr = R.pen.prox_1group(wv - st * (h.arr([g[j]]) if h.mode == 'sym' else np.array([float(g[j])])), st, gi_)
+                terms.append(abs(w[j] - pr[0]))
+            if R.fit_intercept:
+                terms.append(abs(g[p]))
+            return terms
+        for gi_, idxs in enumerate(lay):
+            lam = al * wg[gi_]
+            wv = [w[j] for j in idxs]
+            gv = [g[j] for j in idxs]
+            if h.mode != 'sym':
+                wv, gv, lam = np.array(wv, dtype=float), np.array(gv, dtype=float), float(lam)
+                if R.meta.get('positive') and np.any(wv < 0):
+                    terms.append(float('inf'))
+                elif np.all(wv == 0):
+                    gg = np.minimum(gv, 0.0) if R.meta.get('positive') else gv
+                    terms.append(max(0.0, float(np.linalg.norm(gg)) - lam))
+                else:
+                    terms.append(float(np.linalg.norm(gv + lam * wv / np.linalg.norm(wv))))
+                continue
+            if R.meta.get('positive') and any(bool(v < 0) for v in wv):
+                terms.append(float('inf'))
+                continue
+            zero = all(bool(v == 0) for v in wv)
+            if len(idxs) == 1:
+                if zero:
+                    gg = (-gv[0]) if R.meta.get('positive') else abs(gv[0])
+                    terms.append(_smax(0.0, gg - lam))
+                else:
+                    sg = 1.0 if bool(wv[0] > 0) else -1.0
+                    terms.append(abs(gv[0] + lam * sg))
+            else:
+                from vf import shim
+                if zero:
+                    gg = [(-v if bool(v < 0) else 0.0) for v in gv] if R.meta.get('positive') else gv
+                    terms.append(_smax(0.0, shim.norm(h.arr(gg)) - lam))
+                else:
+                    nr = shim.norm(h.arr(wv))
+                    terms.append(shim.norm(h.arr([gv[k] + lam * wv[k] / nr for k in range(len(idxs))])))
+        if R.fit_intercept:
+            terms.append(abs(g[p]))
+        return terms
     if strategy == 'fixpoint' and R.cfg['solver'] in ('AndersonCD',):
         Lc = coordinate_lipschitz(R.dmeta['name'], R.Xc, R.dmeta)
         for j in range(p):
